@@ -1,0 +1,58 @@
+//go:build verif
+
+// Package verifhook provides scheduling and observation hooks for the external
+// verification harness. With the "verif" build tag the hooks forward to the
+// scheduler installed in S (none installed: the hooks do nothing).
+package verifhook
+
+// Enabled reports whether the hooks are compiled in.
+const Enabled = true
+
+// Sched is implemented by the harness.
+type Sched interface {
+	Gate(kind, id string)
+	Done(kind, id string)
+	Note(kind, id string)
+	Go(label string, f func())
+	Site(id, cid, rid string)
+}
+
+// S is the installed scheduler, or nil.
+var S Sched
+
+// Gate parks a worker before it runs its next queued task.
+func Gate(kind, id string) {
+	if s := S; s != nil {
+		s.Gate(kind, id)
+	}
+}
+
+// Done reports that a worker finished a task.
+func Done(kind, id string) {
+	if s := S; s != nil {
+		s.Done(kind, id)
+	}
+}
+
+// Note reports a queue operation.
+func Note(kind, id string) {
+	if s := S; s != nil {
+		s.Note(kind, id)
+	}
+}
+
+// Go starts f as a goroutine (parked at a gate first when a scheduler is installed).
+func Go(label string, f func()) {
+	if s := S; s != nil {
+		s.Go(label, f)
+		return
+	}
+	go f()
+}
+
+// Site marks that a code site was reached.
+func Site(id, cid, rid string) {
+	if s := S; s != nil {
+		s.Site(id, cid, rid)
+	}
+}
